@@ -286,6 +286,42 @@ def r3b_model_side_population_init(ctx):
                           "trajectories) disagree with the parameters it reports and saves")
 
 
+def r4b_val_to_tensor(ctx):
+    """The reader side of the codec: val_to_tensor may only tensorise and give the declared shape - any re-arrangement of the entries
+    (transpose, flip, permute, sort) makes a saved parameter come back different."""
+    ctx.rule("C12.R4b", "val_to_tensor only tensorises and reshapes (every definition of it)", 1)
+    fs = [f for f in ctx.ix.iter_funcs() if f.name == "val_to_tensor" and f.cls is None]
+    if not fs:
+        raise AnalysisError("C12.R4b", "anchor vanished: val_to_tensor")
+    mods = {m for m in ctx.ix.mods}
+    # a module may define the function twice (the later definition wins): look at every definition in the module source
+    seen = 0
+    for modname in sorted({f.mod for f in fs}):
+        for node in ctx.ix.mods[modname].tree.body:
+            if not (isinstance(node, ast.FunctionDef) and node.name == "val_to_tensor"):
+                continue
+            seen += 1
+            from ..astq import Canon
+            cn = Canon(node)
+            ALLOWED = {"torch.tensor($0)", "$0.view($1)", "$0.reshape($1)", "torch.as_tensor($0)", "torch.tensor($0).view($1)", "torch.tensor($0).reshape($1)"}
+            REARR = (".t()", ".T", "transpose", "permute", "flip", "sort", "roll", "[::-1]", "swapaxes", "movedim")
+            for st in statements(node):
+                if isinstance(st, (ast.Assign, ast.AugAssign)):
+                    txt = cn.text(st.value, inline=False)
+                    where = (modname, "val_to_tensor")
+                    if txt in ALLOWED:
+                        ctx.ok("C12.R4b", where, st, f"`{txt}`: tensorise / declared shape")
+                    elif any(r in txt for r in REARR):
+                        ctx.violation("C12.R4b", where, st, f"`{U(st)[:70]}` re-arranges the entries of a loaded value: a parameter whose stored shape matches (e.g. a square matrix) comes back different from "
+                                      "what was saved")
+                    else:
+                        ctx.unknown("C12.R4b", where, st, f"`{U(st)[:70]}` is neither tensorisation nor a reshape to the declared shape")
+            rets = [cn.text(r.value, inline=False) for r in statements(node) if isinstance(r, ast.Return) and r.value is not None]
+            ctx.check(rets == ["$0"], "C12.R4b", (modname, "val_to_tensor"), node, "returns the (tensorised, reshaped) value", f"val_to_tensor returns {rets}", construct="return value")
+    if seen == 0:
+        raise AnalysisError("C12.R4b", "anchor vanished: module-level val_to_tensor")
+
+
 def r4_codec(ctx):
     ctx.rule("C12.R4", "parameters written with tensor_to_list, read with val_to_tensor(value, declared shape of the same variable)", 2)
     ix = ctx.ix
@@ -340,6 +376,7 @@ def rules(ctx):
     r2_hyperparameters(ctx)
     r3_mode_reset(ctx)
     r3b_model_side_population_init(ctx)
+    r4b_val_to_tensor(ctx)
     r4_codec(ctx)
     r5_rank(ctx)
     ctx.trust("json round trip of Python lists / numbers; tensor.tolist(); tensor.view")
